@@ -170,8 +170,10 @@ def cacheSize : Nat := 2 ^ applyCacheBits
 
 def Cache.empty : Cache := List.replicate cacheSize none
 
-/-- `(progp->id_number ^ (intptr_t) fun ^ ((intptr_t) fun >> APPLY_CACHE_BITS)) & cache_mask` -/
-def slotOf (id ptr : Nat) : Nat := (id ^^^ ptr ^^^ (ptr >>> applyCacheBits)) &&& (cacheSize - 1)
+/-- `(progp->id_number ^ (intptr_t) fun ^ ((intptr_t) fun >> APPLY_CACHE_BITS)) & cache_mask`: the right-hand side of
+    `ix = ...` in apply_low, REGENERATED from the clang AST on every run (`NV.Gen.C07.slotOfGen`); its shape and range
+    are the bridging lemmas `slotOf_formula` / `slotOf_lt` (NV/C07/Tie.lean) -/
+def slotOf (id ptr : Nat) : Nat := slotOfGen id ptr
 
 /-- what apply_low does, seen from its caller -/
 inductive ApplyRes where
